@@ -326,6 +326,21 @@ _add('C15', _O + 'StructFlows', _N + 'StructFlows', ['maskLE_as_coded', 'maskLT_
 _add('C17', _O + 'StructDgcSpn', _N + 'StructDgcSpn', ['cfgAt_as_coded', 'levels_as_coded', 'keff_as_coded', 'pads_as_coded', 'outSize_as_coded', 'outChannels_as_coded'],
      ['dgcspn.schedule', 'dgcspn.SpatialProductLayer'])
 
+# wave 3: LearnSPN termination / total correctness, cutset-network learners, float32 generations
+_add('C05', 'DeeprobModel.Props.C05Term', 'Deeprob.LearnTerm', ['step_proper_decreases', 'learn_terminates', 'learn_terminates_script', 'learn_total', 'learn_total_stream'], [])
+_add('C04', 'DeeprobModel.Props.C05Term', 'Deeprob.LearnTerm', ['learn_terminates', 'learn_total'], [])
+_add('C18', 'DeeprobModel.Props.C18Learn', 'Deeprob.CnetLearn',
+     ['learned_tree_good', 'learn_loop_terminates', 'learned_weights', 'fit_empty_branch', 'score_learners_no_empty_branch', 'leaf_rows_are_path_filter',
+      'leaf_rows_partition', 'learned_cnet_wellFormed', 'learned_cnet_normalised', 'learned_cnet_batch', 'learned_eval_is_path_product',
+      'learned_cnet_wellFormedB', 'learn_nosplit_is_single_clt', 'learn_nosplit_value', 'old_fit_nosplit_loses_tree', 'score_learners_ncand_one_raises'], [])
+_add('C13', 'DeeprobModel.Props.C13Gen', 'Deeprob.Io32',
+     ['f32_idem', 'f32_mono', 'f32_nearest', 'f32_nearest_repr', 'f32_repr', 'f32_fixed', 'f32_rel_err', 'f64_idem', 'f64_nearest', 'around64_is_save_on_f32',
+      'docs_stable_from_gen2', 'docs_stable_from_gen2_f64', 'docs_stable_from_gen1_of_f32', 'gen1_may_differ', 'reload_is_fixed_point', 'gen_stable',
+      'genDocs_stable', 'chain_bounded'], [])
+_add('C16', 'DeeprobModel.Props.C16Sample', 'Deeprob.RatSample',
+     ['ratspn_pass_is_topdown', 'ratspn_sample_exact', 'ratspn_sample_eq_cond', 'ratspn_sample_sums_to_one', 'ratspn_sample_law', 'ratspn_sample_law_normalised',
+      'ratspn_sample_rowlaw', 'ratspn_sample_law_anyclass', 'ratspn_sample_contract', 'ratspn_mpe_is_descent', 'ratspn_mpe_contract', 'mpe_descent_not_maximal'], [])
+
 # net-level prune / marginalize theorems (wave 2)
 PROPS['C09']['modules'] += ['DeeprobModel.Props.C09NetMore', 'DeeprobModel.Props.C09NetKahn']
 PROPS['C09']['theorems'] += ['Deeprob.pruneNet_normal_form', 'Deeprob.pruneNet_valid', 'Deeprob.pruneNet_checkSpn', 'Deeprob.pruneNet_fix',
